@@ -520,16 +520,20 @@ structure PCell where
   /-- `fill=` of the cell card -/
   fill : Option Int
 
-/-- cell.py:Cell.update_pointers after reading: material by number, new unlinked containers, geometry. -/
+/-- the material part of cell.py:Cell.update_pointers: `old_mat_number` is looked up among the problem's
+    materials (`BrokenObjectLinkError` when absent), 0 is void -/
+def resolveMaterial (st : St) (c : ObjId) (n : Int) : Res :=
+  let st0 := st.updCell c (fun cs => { cs with oldMat := n })
+  if n > 0 then
+    match firstWith st0.mnum n st0.materials with
+    | some m => (st0.updCell c (fun cs => { cs with mat := some m }), none)
+    | none => (st0, some .brokenLink)
+  else (st0.updCell c (fun cs => { cs with mat := none }), none)
+
+/-- cell.py:Cell.update_pointers after reading: material by number, new containers (linked like the cell:
+    repaired code), geometry. -/
 def cellUpdatePointers (st : St) (c : ObjId) (pc : PCell) : Res :=
-  let st0 := st.updCell c (fun cs => { cs with oldMat := pc.mat })
-  let r : Res :=
-    if pc.mat > 0 then
-      match firstWith st0.mnum pc.mat st0.materials with
-      | some m => (st0.updCell c (fun cs => { cs with mat := some m }), none)
-      | none => (st0, some .brokenLink)
-    else (st0.updCell c (fun cs => { cs with mat := none }), none)
-  match r with
+  match resolveMaterial st c pc.mat with
   | (st1, none) =>
     match updatePointersP c pc.geom (st1.updCell c (fun cs => { cs with surfs := [], comps := [], contLinked := cs.link })) with
     | ((st2, none), some g) => (st2.updCell c (fun cs => { cs with geom := some g }), none)
